@@ -306,7 +306,7 @@ def run_case(case):
         return dict(final=final, probes=probes, err=err)
 
     chooser = detsched.make_chooser(tuple(case['chooser']), case['seed'])
-    v, e, s = detsched.run(main, chooser, max_steps=case.get('max_steps', 30000))
+    v, e, s = detsched.run(main, chooser, max_steps=case.get('max_steps', 8000))
     res = dict(events=ev, steps=s.steps, switches=s.switches, monitors=mon, deq=deq, fine=state['fine'],
                trace=s.trace if case.get('keep_trace') else None)
     if e is not None:
@@ -360,15 +360,17 @@ def run_case(case):
 
 
 def model_lines(cid, case, res):
-    lines = [f'case {cid} m={case["m"]} n={case["n"]} cap={case["cap"]} w=1 fine={int(bool(res.get("fine")))}']
+    lines = [f'case {cid} m={case["m"]} n={case["n"]} cap={case["cap"]} w=1 fine={int(bool(res.get("fine")))} legacy={int(bool(case.get("legacy_model")))}']
     probes = res.get('probes') or []
-    for e in res['events']:
+    events = res['events']
+    truncated = len(events) > 1200        # a livelock under polling: the prefix is enough
+    for e in events[:1200]:
         if e[0] == 'probe':
             if e[1] < len(probes):
                 lines.append('probe ' + ' '.join(f'{k}={v}' for k, v in probes[e[1]][1].items()))
             continue
         lines.append('e ' + ' '.join(str(x) for x in e))
-    if res.get('final') is None:
+    if res.get('final') is None or truncated:
         lines.append('end partial=1')
     else:
         lines.append('end ' + ' '.join(f'{k}={v}' for k, v in res['final'].items()))
